@@ -66,7 +66,7 @@ REGISTRY["C16"] = dict(level="translation_validation", theorems=IO_THEOREMS, cas
                                  dict(features=("eio", "eioa"), harness_args=("--io", "std"), label="std::io (same build)"),
                                  dict(features=("eio",), harness_args=("--io", "eio"), label="embedded-io only"),
                                  dict(features=("eioa",), harness_args=("--io", "eioa"), label="embedded-io-async only")])
-REGISTRY["C17"] = dict(level="other", theorems=[], cases=P.cases_C17, projection=proj_physical,
+REGISTRY["C17"] = dict(level="other", theorems=T("C17", "C17_refines_no_event", "C17_drop_events", "C17_clone_log", "C17_boxed"), cases=P.cases_C17, projection=proj_physical,
                        oracles=[P.o_no_alloc], extra_checks=[P.build_checks_C17],
                        explanation="runtime half: counting global allocator in the harness, allocation column compared with the model (which emits alloc only in boxed/to_vec) for every non-panicking call of the C01/C07/C08/C12/C14 case sets; build half: cargo build --no-default-features / --features alloc / default on the current tree plus a source scan that only boxed()/to_vec() name heap types (a build fact, outside any model)")
 REGISTRY["C18"] = dict(level="translation_validation", theorems=[], cases=P.cases_C18, projection=proj_ordered,
@@ -76,3 +76,7 @@ REGISTRY["C18"] = dict(level="translation_validation", theorems=[], cases=P.case
 
 from . import c15 as _c15
 REGISTRY["C15"] = dict(level="other", theorems=_c15.THEOREMS, custom=_c15.run)
+
+# C18: the theorems of C01-C13 are what holds for both builds through the same correspondence
+REGISTRY["C18"]["theorems"] = [t for p in ("C01", "C02", "C03", "C04", "C05", "C06", "C07", "C08", "C09", "C10",
+                                           "C11", "C12", "C13") for t in REGISTRY[p]["theorems"]]
